@@ -348,7 +348,8 @@ func runC02(r *vk.Run) {
 					}
 					// no foreign Docker label
 					for k := range s.Labels {
-						if _, ok := exp[k]; !ok && k != "msg" {
+						// (further built-in container_* labels an implementation may derive are not an alarm)
+						if _, ok := exp[k]; !ok && k != "msg" && !strings.HasPrefix(k, "container_") {
 							detail["stream"] = s
 							c.Fail("", fmt.Sprintf("line %q carries label %q that its container does not have", e.Line, k), detail)
 							return
